@@ -4,7 +4,7 @@ import ast
 from sa.algebra import Evaluator, Poly, Undecided
 from sa.calls import bind
 from sa.cfg import CFG, conjuncts
-from sa.common import expand_name, returns_of, resolved_calls
+from sa.common import expand_name, returns_of, resolved_calls, shared_kind, shared_returning
 from sa.defuse import DefUse, loc_name
 from sa.model import AnalysisError, AnchorMissing, const_value, src, walk_function
 from sa.struct import call_name, find, kwarg, norm
@@ -44,33 +44,6 @@ class _EvJ(Evaluator):
         return super().ev(e)
 
 
-VIEW_METHODS = ("reshape", "ravel", "view", "squeeze", "transpose", "swapaxes", "flatten_view")
-
-
-def _view_source(e):
-    """Strip view-preserving wrappers: x.reshape(..), x.T, x[...], x.ravel() ... -> x"""
-    while True:
-        if isinstance(e, ast.Call) and isinstance(e.func, ast.Attribute) and e.func.attr in VIEW_METHODS:
-            e = e.func.value
-        elif isinstance(e, ast.Attribute) and e.attr in ("T", "real", "imag"):
-            e = e.value
-        elif isinstance(e, ast.Subscript):
-            e = e.value
-        else:
-            return e
-
-
-def _is_memoised(repo, q):
-    fi = repo.functions.get(q)
-    if fi is None:
-        return False
-    for d in getattr(fi.node, "decorator_list", []):
-        t = src(d)
-        if "lru_cache" in t or t.split("(")[0].split(".")[-1] in ("cache", "cached", "memoize", "memoized"):
-            return True
-    return False
-
-
 def d1_no_mutation(ctx):
     ctx.rule("D1", "in-place operations in fshift only touch fresh arrays when the input is real")
     repo = ctx.repo
@@ -78,6 +51,7 @@ def d1_no_mutation(ctx):
     du = DefUse(fi.node)
     cfg = du.cfg
     param = fi.params[0]
+    shared = shared_returning(repo)
     muts = []
     for n in walk_function(fi.node):
         if isinstance(n, ast.AugAssign):
@@ -109,14 +83,9 @@ def d1_no_mutation(ctx):
             v = d.value
             if v is None:
                 continue
-            base = _view_source(v)
-            if isinstance(base, ast.Call):
-                q = repo.resolve_call(fi, base)
-                if q and _is_memoised(repo, q):
-                    bad.append((f"view of the memoised result of {q.split('.')[-1]}()", d))
-                    continue
-            if isinstance(base, ast.Name) and base.id not in (param,) and base.id in fi.module.aliases and False:
-                pass
+            if shared_kind(repo, fi, du, v, d.stmt, shared) == "array":
+                bad.append(("view of the memoised result of a cached helper", d))
+                continue
             alias = loc_name(v) == param or (isinstance(v, ast.Attribute) and v.attr in ("T", "real") and loc_name(v.value) == param) \
                 or (isinstance(v, ast.Subscript) and loc_name(v.value) == param and isinstance(v.slice, (ast.Slice, ast.Tuple)))
             if alias:
@@ -126,10 +95,10 @@ def d1_no_mutation(ctx):
                 complex_only = any(loc_name(t) == "do_fft" and not pol for t, pol in gs)
                 if not complex_only:
                     bad.append(("alias", d))
-        shared = [k for k, d in bad if k.startswith("view of the memoised")]
+        memo = [k for k, d in bad if k.startswith("view of the memoised")]
         ctx.check(not bad, fi, n, n, f"target `{var}` is a fresh array whenever the input is real",
-                  (f"`{src(n)[:70]}` modifies in place a {shared[0]}: the cached array is shared between calls, so one call's shift scales the phase ramp of every later "
-                   "call with the same length (shifts no longer add up; a zero shift disables all later shifts)") if shared else
+                  (f"`{src(n)[:70]}` modifies in place a {memo[0]}: the cached array is shared between calls, so one call's shift scales the phase ramp of every later "
+                   "call with the same length (shifts no longer add up; a zero shift disables all later shifts)") if memo else
                   f"`{src(n)[:70]}` can modify the caller's array `{param}` in place (through {[(k, src(d.stmt)[:40] if d.stmt else 'parameter') for k, d in bad]}) for real input",
                   key="mut:" + var)
     # do_fft is the negation of "input is complex"
